@@ -387,7 +387,8 @@ theorem csrOfEdge_degree (n : Nat) (adj : Nat → Nat → Bool) (v : Nat) (hv : 
   push_cast
   omega
 
-/-- a CSR structure (rows in any order) of the graph `adj` on `n` nodes -/
+/-- a CSR structure of the graph `adj` on `n` nodes with the rows in any order: every stored entry is an edge and
+    every edge is stored once (no stored zero, no duplicate entry) -/
 structure IsCsrOf (n : Nat) (adj : Nat → Nat → Bool) (indptr indices : List Nat) : Prop where
   len : indptr.length = n + 1
   mono : ∀ v, v < n → indptr.getD v 0 ≤ indptr.getD (v+1) 0
